@@ -1,4 +1,5 @@
 #!/bin/bash
+export VERIF_NO_PRUNE=1   # several trees are analysed over time / in parallel: keep their caches (tools/prune_cache.sh cleans up)
 # tools/seed_regress.sh [seed names...]  — regression test of the machinery itself (not a registered check):
 # every kept seeded change must make the check of its own property exit 1, and /repo must be clean afterwards.
 cd /verif
